@@ -126,3 +126,26 @@ class Driver:
             self.p.wait(timeout=5)
         except Exception:
             self.p.kill()
+
+
+def modules_for(prop_id):
+    """Lean modules holding the theorems registered for a property (from mkaudit's registry)."""
+    import importlib, sys
+    here = os.path.dirname(os.path.abspath(__file__))
+    if here not in sys.path:
+        sys.path.insert(0, here)
+    mk = importlib.import_module("mkaudit")
+    mods = []
+    for pid, m, _ in mk.REG:
+        if pid == prop_id and m not in mods:
+            mods.append(m)
+    return mods
+
+
+def leanchecker(mods, timeout=1500):
+    """independent re-check of the compiled modules (thorough tier)"""
+    if not mods:
+        return None, "no modules"
+    t0 = time.time()
+    r = subprocess.run(["lake", "env", "leanchecker"] + mods, cwd=LEAN_DIR, capture_output=True, text=True, timeout=timeout)
+    return r.returncode == 0, ("%s (%.0fs)" % ((r.stdout + r.stderr)[-300:].strip(), time.time() - t0))
